@@ -4,9 +4,9 @@ from .. import tlc
 from ..pool import run_cases
 from .. import apiuniverse as au
 
-KNOWN = ['OpCacheKeyedByName', 'NodeCacheSurvives', 'StateStash']
-FINDING_OF = {'OpCacheKeyedByName': 'D08', 'NodeCacheSurvives': 'D09', 'StateStash': 'D40'}
-ALL_PROPS = ['ReadOnlyPreservesMeaning', 'OnlyAddressedChange', 'EdgeOverrideOnlyItsEdge']
+KNOWN = ['OpCacheKeyedByName', 'NodeCacheSurvives', 'StateStash', 'TemplateCacheByPath']
+FINDING_OF = {'OpCacheKeyedByName': 'D08', 'NodeCacheSurvives': 'D09', 'StateStash': 'D40', 'TemplateCacheByPath': 'D23'}
+ALL_PROPS = ['ReadOnlyPreservesMeaning', 'OnlyAddressedChange', 'EdgeOverrideOnlyItsEdge', 'LoadYieldsFile', 'ClearModelClears']
 
 
 def tlc_behaviours(ctx, name, calls, maxlen, workers=16, simulate=None):
@@ -30,6 +30,28 @@ def tlc_behaviours(ctx, name, calls, maxlen, workers=16, simulate=None):
         ctx.add_tlc(f'simulate:{name}', r2, f'{num} random histories of depth {depth}')
         behs += r2['exports'].get('BEH', [])
     return behs
+
+
+CY_CALLS = ['compile', 'update_var', 'from_yaml', 'clear_model', 'decorator']
+
+
+def tlc_behaviours_cy(ctx, maxlen, plain):
+    """Deep histories about the circuit loaded from a YAML file (from_yaml / update_var / compile / clear(model)), one
+    behaviour per (abstract state, sequence of call kinds): path coverage of the template cache and of clear()."""
+    cons = ['Bound', 'OnlyCy'] + (['PlainCalls'] if plain else [])
+    c0 = tlc.cfg(constants=dict(Dev=set(), Calls=set(CY_CALLS), MaxLen=maxlen), invariants=['HistoryIndependent'],
+                 properties=ALL_PROPS, constraints=cons, view='ViewSig')
+    r0 = tlc.run_tlc('Api', c0, workers=16, timeout=3000)
+    ctx.add_tlc('design:yaml-circuit', r0, 'Dev={}: histories of the YAML-loaded circuit, P refines M')
+    if not r0['ok']:
+        ctx.spec_violation('yaml-circuit', r0)
+    c1 = tlc.cfg(constants=dict(Dev=set(KNOWN), Calls=set(CY_CALLS), MaxLen=maxlen), invariants=['OnlyKnown'],
+                 constraints=cons + ['NoStaleNodeCache'], view='ViewSig', next='NextExport')
+    r1 = tlc.run_tlc('Api', c1, workers=16, timeout=3000)
+    ctx.add_tlc('export:yaml-circuit', r1, 'Dev=Known: one behaviour per abstract state and sequence of call kinds')
+    if not r1['ok']:
+        ctx.spec_violation('yaml-circuit:known', r1)
+    return r1['exports'].get('BEH', [])
 
 
 def vacuity(ctx, calls, dev, maxlen=3):
